@@ -1,0 +1,6 @@
+//go:build verif
+
+package webrtc
+
+// VerifIsOfferer exports isOfferer for the verification harness.
+func VerifIsOfferer(a, b string) bool { return isOfferer(a, b) }
